@@ -215,6 +215,8 @@ def buildCalls (oc : OCfg) (st : St) (op : Op) : Except Err Plan :=
           let live := m.frags.flatMap (fragRows objs m.fields)
           let hitRows := live.filter hit
           let liveKeys := live.filterMap c0Of
+          -- a target row matched by two source rows is an error ("ambiguous merge"), raised before anything is written
+          if liveKeys.any (fun c => decide ((keys.filter (fun x => x == c)).length ≥ 2)) then .error .other else
           -- one output row per matched (target, source) pair, then the unmatched source rows
           let updated := hitRows.filterMap (fun t => rows.find? (fun r => c0Of r == c0Of t))
           let inserted := rows.filter (fun r =>
